@@ -4,7 +4,7 @@ from pyvc.contracts import Registry
 
 def build():
     R = Registry()
-    from . import theory, c_cropping_batch, c_cropping_reap, c_stats, c_runner, c_prepare, c_labels, c_cropping_grow, c_cropping_progress
+    from . import theory, c_cropping_batch, c_cropping_reap, c_stats, c_runner, c_prepare, c_labels, c_cropping_grow, c_cropping_progress, c_fs, c_manage
     theory.install(R)
     c_cropping_batch.install(R)
     c_cropping_reap.install(R)
@@ -27,6 +27,9 @@ def build():
     c_cropping_grow.install_c04_lemma(R)
     c_cropping_progress.install(R)
     c_cropping_progress.install_lemmas(R)
+    c_fs.install(R)
+    c_manage.install(R)
+    c_manage.install_files(R)
     # calls dropped as no-ops (DESIGN 2.2) -- every dropped call site is listed in the evidence
     R.inert |= {"print", "warnings.warn", "progbar", "time.sleep", "logger.setLevel", "logging.getLogger",
                 "sys.stderr.flush"}
